@@ -132,7 +132,32 @@ def simfs(argv):
     return 0 if bad == 0 and done > 0 else 1
 
 
+def seeded(patterns):
+    """Every change kept under seeded/ (written by sub-agents from the property text alone) must be
+    reported by the check of its property within the quick budget."""
+    sdir = os.path.join(E.VERIF, "seeded")
+    ok = True
+    for name in sorted(os.listdir(sdir)):
+        if patterns and not any(p in name for p in patterns):
+            continue
+        d = os.path.join(sdir, name)
+        if not os.path.isfile(os.path.join(d, "patch.diff")):
+            continue
+        prop = json.load(open(os.path.join(d, "meta.json"))).get("property", name[:3])
+        p = subprocess.run([os.path.join(E.VERIF, "tools", "with_mutant.sh"), os.path.join(d, "patch.diff"),
+                            os.path.join(E.VERIF, "vcheck"), prop, "quick"], capture_output=True, text=True, timeout=3600)
+        hit = [l for l in p.stdout.splitlines() if l.startswith("VIOLATION property=")]
+        status = "caught" if (p.returncode == 1 and hit) else "MISSED (rc=%d)" % p.returncode
+        if status != "caught":
+            ok = False
+        print("seeded %-55s %s (%d signatures)" % (name, status, len(hit)))
+        sys.stdout.flush()
+    return 0 if ok else 1
+
+
 def main(argv):
+    if argv and argv[0] == "seeded":
+        return seeded(argv[1:])
     if argv and argv[0] == "simfs":
         return simfs(argv[1:])
     if argv and argv[0] == "determinism":
